@@ -105,6 +105,7 @@ def q_case(P, seq, lsan=False):
 # resolution in the C++, one model function each
 VAL_OPS_ALL = ("va", "vn", "vm", "vc", "vq", "vr")
 COPY_OPS_ALL = ("as", "an", "ar", "cc", "cn", "cr")
+READ_OPS_ALL = ("rd", "rc", "rm", "rp", "rt")      # non-const lvalue, const lvalue, std::move, prvalue, member of a temporary
 KIND_VALUES = {"b": ["\x00", "\x01"], "f": ["\x00", "\x01"], "i": ["0", "-17", "123456"], "a": ["", "ab"], "s": ["", "a"], "c": ["", "a"]}
 
 
@@ -120,6 +121,8 @@ def o_alphabet(P, vals, full, cats=False):
                 ops.append((k, i, j))
     for i in range(P):
         ops += [("ae", i), ("dc", i), ("rd", i)]
+        if cats:
+            ops += [(k, i) for k in READ_OPS_ALL[1:]]
     return ops
 
 
@@ -158,7 +161,10 @@ class C18(Check):
                   "over a pool of 3, 2 types; thorough: depth 4 over a pool of 3; optional to depth 3) + sampled (random to length 20), not proved. The model has ONE function per optional operation; the C++ overload "
                   "set (const T& / T&& / copy operations) and the source's value category (const lvalue, non-const lvalue, rvalue) and "
                   "payload type (bool, int, constructible-from-anything, convertible-from-bool, std::string, counting type) — i.e. which "
-                  "overload is actually selected — are distinguished only by the driver. Leaks: allocator bytes are compared before/after every case and LeakSanitizer confirms any growth.")
+                  "overload is actually selected — are distinguished only by the driver; likewise the value category of the optional at a read site (the model has "
+                  "ONE read: an empty optional raises, an engaged one yields its value and is left unchanged — the unchanged header "
+                  "never moves out; the driver only looks at the value through the returned reference, and the transient copies that "
+                  "make the temporaries are not modelled). Leaks: allocator bytes are compared before/after every case and LeakSanitizer confirms any growth.")
     rule = ("quaint_ptr: every applicable operation sequence of depth 4 on a pool of 2 pointers and of depth 3 on a pool of 3 (thorough: "
             "also depth 4 on a pool of 3 and depth 4 on a pool of 2 with 3 types) "
             "over {make<T>, default-construct, move-construct, move-assign (incl. self), reset, p = nullptr (also on a vector "
@@ -166,7 +172,8 @@ class C18(Check):
             "applicable operations) and fully random ones (inapplicable operations must be skipped identically); optional: every "
             "sequence of depth 3 over {assign value, construct from value, copy-assign (incl. self), copy-construct, assign empty, "
             "default-construct, read} on 2 optionals of a counting type, every sequence of depth 2 over the same operations with the source offered as "
-            "const lvalue / non-const lvalue / rvalue, for T = bool, int, a class constructible from anything, a class convertible "
+            "const lvalue / non-const lvalue / rvalue and the optional READ (operator*, operator bool) as non-const lvalue / const lvalue / "
+            "std::move(named) / prvalue returned by a function / member of a temporary, empty and engaged, for T = bool, int, a class constructible from anything, a class convertible "
             "from bool, std::string and the counting type; random length <= 16 on 3 optionals of all six payload types. The state is observed after EVERY step. Non-trivial: a quaint "
             "case in which some object is destroyed before the end of the history and some pointer is moved; an optional case "
             "with a copy/assignment from another optional. distinct = distinct case line")
@@ -200,7 +207,7 @@ class C18(Check):
                 yield o_case(kind, 2, list(seq)), "o-exh2-all-categories"
         if not quick:
             for kind in "bia":
-                oc = [o for o in o_alphabet(2, KIND_VALUES[kind][:2], full=True, cats=True) if o[0] in ("va", "an", "ar", "cn", "cr", "ae", "rd")]
+                oc = [o for o in o_alphabet(2, KIND_VALUES[kind][:2], full=True, cats=True) if o[0] in ("va", "an", "ar", "cn", "cr", "ae", "rd", "rm", "rp")]
                 for seq in itertools.product(oc, repeat=3):
                     yield o_case(kind, 2, list(seq)), "o-exh3-copy-paths"
         if not quick:
@@ -259,7 +266,7 @@ class C18(Check):
                 elif k < 0.85:
                     seq.append(("dc", i))
                 else:
-                    seq.append(("rd", i))
+                    seq.append((rng.choice(READ_OPS_ALL), i))
             yield o_case(kind, P, seq), "o-rand"
 
     # ------------------------------------------------------------ classification
